@@ -1,7 +1,7 @@
 (* Correspondence definitions for C08: evaluate the model on the cases the implementation ran. *)
 From Coq Require Import List NArith ZArith Bool.
 Import ListNotations.
-From GMS Require Import Base.CorrLib Expr.C08Agg.
+From GMS Require Import Base.CorrLib Expr.C08Agg Expr.C08GroupConcat.
 Open Scope Z_scope.
 
 (* observed value: NULL, an integer (also an integral float64), a float64 m * 2^e with 2^52 <= |m| < 2^53, NaN,
@@ -33,6 +33,8 @@ Inductive case :=
 (* window path: function, buffered values and order keys (whole sorted buffer), partition [ps, pe), frame bounds,
    observed outputs of the partition's rows in window order *)
 | CWin (f : wfn) (buf keys : list v) (ps pe : Z) (sb eb : bound) (obs : list oval)
+(* GROUP_CONCAT([DISTINCT] s [ORDER BY id [DESC]] SEPARATOR sep) of one group: rows (id, s) in arrival order *)
+| CGC (distinct : bool) (order : option bool) (sep : list N) (rs : list (Z * option (list N))) (obs : option (list N))
 | CRange (f : wfn) (buf : list v) (pkeys : list Z) (ps pe : Z) (sb eb : bound) (obs : list oval).
 
 Definition avg_w (a : option (Z * Z)) : wval := match a with None => WNull | Some (n, d) => WQ n d end.
@@ -52,6 +54,7 @@ Definition ok (c : case) : bool :=
     if existsb (fun w => match w with WPanic => true | _ => false end) model
     then match obs with [OPanic] => true | _ => false end      (* a panic takes the whole query down *)
     else Nat.eqb (length model) (length obs) && forallb (fun p => agrees (fst p) (snd p)) (combine model obs)
+  | CGC distinct order sep rs obs => option_eqb bytes_eqb (group_concat distinct order sep 1024 rs) obs
   | CRange f buf pkeys ps pe sb eb obs =>
     let model := range_part f buf pkeys ps pe sb eb in
     Nat.eqb (length model) (length obs) && forallb (fun p => agrees (fst p) (snd p)) (combine model obs)
